@@ -262,7 +262,7 @@ SRCC_UNITS = [
     # a second unit over netaddr/strategy/__init__.py (everything it does not list is the first one's): BYTES_TO_BITS is the table
     # regenerated by harness/gen/codec.py (Gen/codec_gen.v gen_bytes_to_bits = SrcPreludeText.py_BYTES_TO_BITS)
     ("netaddr/strategy/__init__.py", "pysrc_strategy_bits_gen.v", "strategy_", SRCC_REQ,
-     [(None, "int_to_bits", {"int_val": "int", "word_size": "int", "num_words": "int", "word_sep": "str"})]),
+     [(None, "int_to_bits", {"int_val": "int", "word_size": "int", "num_words": "int", "word_sep": "str"}), (None, "bytes_to_bits", {})]),
     ("netaddr/fbsocket.py", "pysrc_fbsocket_gen.v", "fbsocket_", SRCC_REQ,
      [(None, f, {"packed_ip": "bytes", "tokens": "list str", "af": "int", "ip_string": "str", "token": "str"}) for f in (
          "inet_ntoa", "_is_hextet", "_inet_pton_af_inet", "_compact_ipv6_tokens", "inet_ntop", "inet_pton")]),
@@ -301,7 +301,7 @@ RESERVED |= set("py_struct_pack py_struct_unpack py_seq_item py_list_item py_opt
                 "py_str_or py_str_mul py_bytes_mul py_encode py_bytes_join py_str_in py_list_of_str py_split py_int_base_o py_fmt_x4 "
                 "py_insert0 py_except_all py_except_value join split fmt_d fmt_x chars length concat firstn skipn nth_error "
                 "py_BYTES_TO_BITS py_backend be py_inet_aton py_inet_pton4 py_inet_pton6 py_inet_ntop6 py_format1 py_split_dc py_contains_dc "
-                "contains_char py_sort_asc py_sort_optkey py_ins_asc".split())
+                "contains_char py_sort_asc py_sort_optkey py_ins_asc py_range py_list_set py_join_opt".split())
 
 
 class Untranslatable(Exception):
@@ -2468,6 +2468,13 @@ def srcc_normalize(f):
             first = ast.Assign(targets=[ast.Name(id=x, ctx=ast.Store())], value=ast.Name(id=item, ctx=ast.Load()))
             n.body.insert(0, ast.fix_missing_locations(ast.copy_location(first, n.body[0])))
 
+    # `for x in range(..)` whose variable the body reads: the range as a list (the translator's own range loop has no variable)
+    for n in ast.walk(f):
+        if (isinstance(n, ast.For) and isinstance(n.target, ast.Name) and isinstance(n.iter, ast.Call) and isinstance(n.iter.func, ast.Name)
+                and n.iter.func.id == "range" and not n.iter.keywords
+                and any(isinstance(x, ast.Name) and x.id in (n.target.id, n.target.id.split("__item")[0]) and isinstance(x.ctx, ast.Load)
+                        for st in n.body for x in ast.walk(st))):
+            n.iter = ast.fix_missing_locations(ast.copy_location(ast.Call(func=ast.Name(id="list", ctx=ast.Load()), args=[n.iter], keywords=[]), n.iter))
     # a comprehension variable (its own scope in Python 3) that is also bound elsewhere in f is renamed inside the comprehension
     bound = [n.id for n in ast.walk(f) if isinstance(n, ast.Name) and isinstance(n.ctx, ast.Store)] + [a.arg for a in f.args.args]
     k = 0
@@ -2647,6 +2654,10 @@ def srcc_rhs(self, node, env):
         if any(not is_value(ty) for ty, _ in items):
             bad(node, "tuple component of kind %s" % [show(ty) for ty, _ in items if not is_value(ty)][0])
         return (("tup", tuple(ty for ty, _ in items)), tuple_term([t for _, t in items]))
+    if (isinstance(node, ast.BinOp) and isinstance(node.op, ast.Mult) and isinstance(node.right, ast.List) and len(node.right.elts) == 1
+            and isinstance(node.right.elts[0], ast.Constant) and node.right.elts[0].value is None):
+        # n * [None]: a list of n slots that hold None or text
+        return (("list", Cell("optstr")), "(List.repeat (@None string) (Z.to_nat %s))" % self.int_(node.left, env))
     if isinstance(node, ast.BinOp) and isinstance(node.op, (ast.Add, ast.Mult)):
         snap, pre0 = self.snapshot(), list(self.pre)
         (ta, a), (tb, b) = self.ex(node.left, env), self.ex(node.right, env)
@@ -2898,6 +2909,18 @@ def srcc_call(self, node, env):
         return ("bool", "false" if env[node.args[0].id][0] == "int" else "true")      # compat: isinstance(x, (str, bytes))
     if isinstance(f, ast.Name) and f.id not in env and self.tr.owner_of(f.id) is not None:
         return srcc_callfn(self, node, f.id, env)
+    isrange = lambda c: (isinstance(c, ast.Call) and isinstance(c.func, ast.Name) and not c.keywords and 1 <= len(c.args) <= 3 and (
+        (c.func.id == "range" and "range" not in env and not self.mod.toplevel("range"))
+        or (c.func.id == "_range" and "_range" not in env and self.mod.imports.get("_range") == "netaddr.compat._range")))
+    if isrange(node) and node.func.id == "_range" or (self.builtin_call(node, "list", env, 1) and isrange(node.args[0]) and node.args[0].func.id == "range"):
+        # list(range(a, b, c)) / compat._range(a, b, c) (= list(range(..))): the ints a, a + c, .. before b; the step is a literal != 0
+        c = node if node.func.id == "_range" else node.args[0]
+        xs = [self.int_(a, env) for a in c.args]
+        step = const_int(c.args[2]) if len(c.args) == 3 else 1
+        if not step:
+            bad(node, "range() with a step that is no non-zero literal")
+        a, b = (xs[0], xs[1]) if len(xs) >= 2 else ("0", xs[0])
+        return (("list", Cell("int")), "(py_range %s %s %s)" % (a, b, "(%d)" % step if step < 0 else "%d" % step))
     if self.builtin_call(node, "list", env, 1):
         snap, pre0 = self.snapshot(), list(self.pre)
         ty, t = self.ex(node.args[0], env)
@@ -2936,6 +2959,8 @@ def srcc_call(self, node, env):
             return ("bytes", "(py_encode %s)" % t)          # '<printable ASCII literal>'.encode(): its bytes
         if f.attr == "join" and len(node.args) == 1:
             aty, a = self.ex(node.args[0], env)
+            if is_list(aty) and aty[1].find().t == "optstr":
+                return ("out", "str", "(py_join_opt %s %s)" % (t, a))      # TypeError if an item is None
             if not srcc_is_strlist(aty):
                 bad(node, "join() of %s" % show(aty))
             return ("str", "(join %s %s)" % (t, a))
@@ -3229,6 +3254,18 @@ def srcc_stmt(self, s, rest, env, k, after):
         # try: <assignments, if, raise, loops without return / break / continue> / except E1: raise E2: as try_except; the loops
         # are Fixpoints called inside the protected body
         return srcc_try_except(self, s, rest, env, k, after)
+    if (isinstance(s, ast.Assign) and len(s.targets) == 1 and isinstance(s.targets[0], ast.Subscript) and isinstance(s.targets[0].value, ast.Name)
+            and is_list(env.get(s.targets[0].value.id, ("",))[0]) and env[s.targets[0].value.id][0][1].find().t == "optstr"
+            and not isinstance(s.targets[0].slice, ast.Slice)):
+        l = s.targets[0].value.id                           # l[i] = e: IndexError outside -len .. len-1
+        lty, lt = env[l]
+        i = self.int_(s.targets[0].slice, env)
+        ty, t = self.ex(s.value, env)
+        if ty != "str":
+            bad(s, "item assignment of a %s value" % show(ty))
+        pre = self.take_pre()
+        cn, env = self.bind_local(s, l, lty, env)
+        return self.wrap(pre, ("bind", cn, "(py_list_set %s %s (Some %s))" % (lt, i, t), go(env)))
     if (isinstance(s, ast.Assign) and len(s.targets) == 1 and isinstance(s.targets[0], ast.Name)
             and s.targets[0].id in srcc_optlocals(self)):
         x = s.targets[0].id                                 # a local that holds None or an int: option Z
@@ -3406,3 +3443,19 @@ def _srcc_fn_text_be(self):
 
 
 Fn.text = _srcc_fn_text_be
+
+
+_assigned_names0 = assigned_names
+
+
+def assigned_names(stmts):
+    """as before; in addition `l[i] = e` (item assignment, read by the SRCC units only) rebinds the list l"""
+    found = [(n.lineno, n.col_offset, n.value.id) for st in stmts for n in ast.walk(st)
+             if isinstance(n, ast.Subscript) and isinstance(n.ctx, ast.Store) and isinstance(n.value, ast.Name)]
+    if not found:
+        return _assigned_names0(stmts)
+    out = _assigned_names0(stmts)
+    for x in in_order(found):
+        if x not in out:
+            out.append(x)
+    return out
